@@ -234,11 +234,15 @@ IsDupFinal(e, k) ==
      rb1.some /\ ~rb1.v.more /\ cache[k].done1.v = FinalMarker(req)
 
 (* ---- state update ------------------------------------------------------------------ *)
-NewDone1(e, x) ==
+NewDone1(e, x, k) ==
   IF e.op # "ireq" THEN None
   ELSE LET req == MsgOf(e.req)
            rb1 == FirstBlock(req, OPT_BLOCK1) IN
-       IF rb1.some /\ ~rb1.v.more /\ x.out = OkR(FALSE) THEN Some(FinalMarker(req)) ELSE None
+       IF rb1.some /\ ~rb1.v.more /\ x.out = OkR(FALSE) THEN Some(FinalMarker(req))
+       \* a repeat of the completed final block that was answered without the application (from the Block2
+       \* cache of its large reply) does not end the run of repeats
+       ELSE IF rb1.some /\ ~rb1.v.more /\ k \in DOMAIN cache /\ cache[k].done1 = Some(FinalMarker(req)) THEN cache[k].done1
+       ELSE None
 
 Bsz(k) == IF k \in DOMAIN cache THEN cache[k].bsz ELSE None
 \* the size exponent of the Block2 option on a reply intercept_response has just fragmented
@@ -269,7 +273,7 @@ StepCall(e) ==
   IF exact # {} /\ (\E p \in exact : Violated(e, p, Expected(e, p), r, Bsz(k)) = {})
   THEN LET p == CHOOSE p \in exact : Violated(e, p, Expected(e, p), r, Bsz(k)) = {}
            x == Expected(e, p) IN
-       /\ cache' = Touch(k, x.st, e, NewDone1(e, x))
+       /\ cache' = Touch(k, x.st, e, NewDone1(e, x, k))
        /\ UNCHANGED << drift, live >>
        /\ IF IsDupFinal(e, k) /\ x.out = OkR(FALSE)
           THEN \* C09: an identical final block repeated in a row must not reach the application again
@@ -293,7 +297,10 @@ StepCall(e) ==
        /\ kfs' = kfs /\ UNCHANGED kftotal
        /\ IF wrong # {}
           THEN \* behaves as on the forbidden pre-state: a C20 symptom, and whatever the pinned predicates say
-               /\ RejectEv({"C20"} \cup vAll, "the call behaved as if the entry had expired / been kept against the configured expiry, or lost its state")
+               \* ... and, when this key's live state vanished while other keys were in use since, a transfer
+               \* that was disturbed by the others (C12)
+               /\ RejectEv({"C20"} \cup vAll \cup (IF k \in DOMAIN cache /\ \E q \in DOMAIN cache \ { k } : cache[q].t1 >= cache[k].t1 THEN {"C12"} ELSE {}),
+                           "the call behaved as if the entry had expired / been kept against the configured expiry, or lost its state")
                /\ live' = FALSE /\ UNCHANGED << cache, drift >>
           ELSE IF vAll # {}
           THEN /\ RejectEv(vAll, "outcome differs from BlockHandler.tla in a way the property pins")
